@@ -13,6 +13,7 @@ import Emg3dVerif.Drv.C09
 import Emg3dVerif.Drv.C14
 import Emg3dVerif.Drv.C16
 import Emg3dVerif.Drv.C17
+import Emg3dVerif.Drv.C18
 open Emg
 
 def handle (ws : List String) : String :=
@@ -35,6 +36,7 @@ def handle (ws : List String) : String :=
       else if w == "validate" || w == "map" then Drv14.handle ws
       else if w == "stretch" || w == "goodmg" || w == "cutvec" || w == "compdom" || w == "oaw" then Drv16.handle ws
       else if w == "io" then Drv17.handle ws
+      else if w.startsWith "cli" then Drv18.handle ws
       else none
     r.getD "bad-op"
 
